@@ -1,1 +1,241 @@
-// sketcher wrappers
+//! thin wrappers driving the real sketchers of the crate through their public entry points
+use fnv::FnvHasher;
+use indexmap::IndexMap;
+use probminhash::probminhasher::*;
+use probminhash::superminhasher::NoHashHasher;
+use probminhash::weightedset::WeightedSet;
+use std::collections::HashMap;
+use std::hash::{BuildHasherDefault, Hasher};
+
+#[derive(Clone, Copy, Debug, PartialEq, Eq)]
+pub enum Pv {
+    P2,
+    P3,
+    P3a,
+    P3aSha,
+}
+pub const ALL_PV: [Pv; 4] = [Pv::P2, Pv::P3, Pv::P3a, Pv::P3aSha];
+
+impl Pv {
+    pub fn name(&self) -> &'static str {
+        match self {
+            Pv::P2 => "pmh2",
+            Pv::P3 => "pmh3",
+            Pv::P3a => "pmh3a",
+            Pv::P3aSha => "pmh3asha",
+        }
+    }
+    pub fn min_m(&self) -> usize {
+        match self {
+            Pv::P2 => 1,
+            _ => 2,
+        }
+    }
+}
+
+#[derive(Clone, Copy, Debug, PartialEq, Eq)]
+pub enum Hs {
+    Fnv,
+    NoHash,
+}
+
+#[derive(Clone, Copy, Debug, PartialEq, Eq)]
+pub enum Entry {
+    /// item-wise streaming (hash_item); for 3a/3aSha one IndexMap call
+    Item,
+    /// WeightedSet + Iterator object (P2, P3); others fall back to IndexMap
+    Wset,
+    IdxMap,
+    /// std HashMap with RandomState (iteration order differs per instance / process)
+    HashMapStd,
+    /// several batches (3a / 3aSha : several hash_weigthed_idxmap calls; P2/P3: same as Item)
+    Batches(usize),
+    /// several batches through HashMap calls
+    HashBatches(usize),
+}
+
+pub struct WSet {
+    items: Vec<u64>,
+    pos: usize,
+    w: HashMap<u64, f64>,
+}
+impl WSet {
+    pub fn new(items: &[(u64, f64)]) -> Self {
+        WSet { items: items.iter().map(|x| x.0).collect(), pos: 0, w: items.iter().cloned().collect() }
+    }
+}
+impl Iterator for WSet {
+    type Item = u64;
+    fn next(&mut self) -> Option<u64> {
+        if self.pos < self.items.len() {
+            self.pos += 1;
+            Some(self.items[self.pos - 1])
+        } else {
+            None
+        }
+    }
+}
+impl WeightedSet for WSet {
+    type Object = u64;
+    fn get_weight(&self, obj: &u64) -> f64 {
+        self.w[obj]
+    }
+}
+
+fn chunks(items: &[(u64, f64)], k: usize) -> Vec<&[(u64, f64)]> {
+    let k = k.max(1).min(items.len().max(1));
+    let sz = items.len().div_ceil(k).max(1);
+    items.chunks(sz).collect()
+}
+
+fn pmh_generic<H: Hasher + Default>(v: Pv, m: usize, items: &[(u64, f64)], entry: Entry, ph: u64) -> (Vec<u64>, Vec<f64>) {
+    match v {
+        Pv::P2 => {
+            let mut s = ProbMinHash2::<u64, H>::new(m, ph);
+            match entry {
+                Entry::Wset => s.hash_wset(&mut WSet::new(items)),
+                Entry::HashMapStd | Entry::HashBatches(_) => {
+                    let hm: HashMap<u64, f64> = items.iter().cloned().collect();
+                    s.hash_weigthed_hashmap::<()>(&hm)
+                }
+                _ => {
+                    for (d, w) in items {
+                        s.hash_item(*d, *w);
+                    }
+                }
+            }
+            (s.get_signature().clone(), s.verif_registers())
+        }
+        Pv::P3 => {
+            let mut s = ProbMinHash3::<u64, H>::new(m, ph);
+            match entry {
+                Entry::Wset => s.hash_wset(&mut WSet::new(items)),
+                Entry::IdxMap => {
+                    let im: IndexMap<u64, f64> = items.iter().cloned().collect();
+                    s.hash_weigthed_idxmap(&im)
+                }
+                Entry::HashMapStd | Entry::HashBatches(_) => {
+                    let hm: HashMap<u64, f64> = items.iter().cloned().collect();
+                    s.hash_weigthed_hashmap(&hm)
+                }
+                _ => {
+                    for (d, w) in items {
+                        s.hash_item(*d, w);
+                    }
+                }
+            }
+            (s.get_signature().clone(), s.verif_registers())
+        }
+        Pv::P3a => {
+            let mut s = ProbMinHash3a::<u64, H>::new(m, ph);
+            match entry {
+                Entry::HashMapStd => {
+                    let hm: HashMap<u64, f64> = items.iter().cloned().collect();
+                    s.hash_weigthed_hashmap(&hm)
+                }
+                Entry::Batches(k) => {
+                    for c in chunks(items, k) {
+                        let im: IndexMap<u64, f64> = c.iter().cloned().collect();
+                        s.hash_weigthed_idxmap(&im);
+                    }
+                }
+                Entry::HashBatches(k) => {
+                    for c in chunks(items, k) {
+                        let hm: HashMap<u64, f64> = c.iter().cloned().collect();
+                        s.hash_weigthed_hashmap(&hm);
+                    }
+                }
+                _ => {
+                    let im: IndexMap<u64, f64> = items.iter().cloned().collect();
+                    s.hash_weigthed_idxmap(&im)
+                }
+            }
+            (s.get_signature().clone(), s.verif_registers())
+        }
+        Pv::P3aSha => {
+            let mut s = ProbMinHash3aSha::<u64>::new(m, ph);
+            match entry {
+                Entry::HashMapStd => {
+                    let hm: HashMap<u64, f64> = items.iter().cloned().collect();
+                    s.hash_weigthed_hashmap(&hm)
+                }
+                Entry::Batches(k) => {
+                    for c in chunks(items, k) {
+                        let im: IndexMap<u64, f64> = c.iter().cloned().collect();
+                        s.hash_weigthed_idxmap(&im);
+                    }
+                }
+                Entry::HashBatches(k) => {
+                    for c in chunks(items, k) {
+                        let hm: HashMap<u64, f64> = c.iter().cloned().collect();
+                        s.hash_weigthed_hashmap(&hm);
+                    }
+                }
+                _ => {
+                    let im: IndexMap<u64, f64> = items.iter().cloned().collect();
+                    s.hash_weigthed_idxmap(&im)
+                }
+            }
+            (s.get_signature().clone(), s.verif_registers())
+        }
+    }
+}
+
+/// sketch a weighted set given as (item, weight) pairs, in the order given; returns (signature, registers)
+pub fn pmh(v: Pv, hs: Hs, m: usize, items: &[(u64, f64)], entry: Entry, placeholder: u64) -> (Vec<u64>, Vec<f64>) {
+    match hs {
+        Hs::Fnv => pmh_generic::<FnvHasher>(v, m, items, entry, placeholder),
+        Hs::NoHash => pmh_generic::<NoHashHasher>(v, m, items, entry, placeholder),
+    }
+}
+
+pub fn fnv_build() -> BuildHasherDefault<FnvHasher> {
+    BuildHasherDefault::<FnvHasher>::default()
+}
+
+/// process several batches in order with one sketcher: P2/P3 item-wise, 3a/3aSha one IndexMap call per batch
+pub fn pmh_batches(v: Pv, hs: Hs, m: usize, batches: &[&[(u64, f64)]], ph: u64) -> (Vec<u64>, Vec<f64>) {
+    match hs {
+        Hs::Fnv => pmh_batches_g::<FnvHasher>(v, m, batches, ph),
+        Hs::NoHash => pmh_batches_g::<NoHashHasher>(v, m, batches, ph),
+    }
+}
+
+fn pmh_batches_g<H: Hasher + Default>(v: Pv, m: usize, batches: &[&[(u64, f64)]], ph: u64) -> (Vec<u64>, Vec<f64>) {
+    match v {
+        Pv::P2 => {
+            let mut s = ProbMinHash2::<u64, H>::new(m, ph);
+            for b in batches {
+                for (d, w) in b.iter() {
+                    s.hash_item(*d, *w);
+                }
+            }
+            (s.get_signature().clone(), s.verif_registers())
+        }
+        Pv::P3 => {
+            let mut s = ProbMinHash3::<u64, H>::new(m, ph);
+            for b in batches {
+                for (d, w) in b.iter() {
+                    s.hash_item(*d, w);
+                }
+            }
+            (s.get_signature().clone(), s.verif_registers())
+        }
+        Pv::P3a => {
+            let mut s = ProbMinHash3a::<u64, H>::new(m, ph);
+            for b in batches {
+                let im: IndexMap<u64, f64> = b.iter().cloned().collect();
+                s.hash_weigthed_idxmap(&im);
+            }
+            (s.get_signature().clone(), s.verif_registers())
+        }
+        Pv::P3aSha => {
+            let mut s = ProbMinHash3aSha::<u64>::new(m, ph);
+            for b in batches {
+                let im: IndexMap<u64, f64> = b.iter().cloned().collect();
+                s.hash_weigthed_idxmap(&im);
+            }
+            (s.get_signature().clone(), s.verif_registers())
+        }
+    }
+}
